@@ -78,7 +78,7 @@ func genC07(tier string, seed int64) []Case {
 		{{"next", "next-noread", "respond", "next", "respond"}, {"next", "respond"}, {"next", "respond"}},
 		{{"next", "next-noread", "exit1"}, {"next", "next-noread", "respond", "next", "respond"}, {"next", "respond"}},
 	} {
-		d := c07Desc{Salt: fmt.Sprintf("noread-%d", i), NExt: i % 2, Faulty: 3, T: 400, Delays: map[string]int{}, Rt: progs, EventKB: 6100}
+		d := c07Desc{Salt: fmt.Sprintf("noread-%d", i), NExt: i % 2, Faulty: 3, T: 1500, Delays: map[string]int{}, Rt: progs, EventKB: 6100}
 		for e := 0; e < d.NExt; e++ {
 			d.Ext = append(d.Ext, [][]string{{"register", "next", "next"}, {"register", "next", "next"}, {"register", "next", "next"}})
 		}
